@@ -29,7 +29,7 @@ BUDGET = {
     "quick": {"cases": 8400, "seconds": 90, "shards": 8},
     "thorough": {"cases": 300000, "seconds": 900, "shards": 16},
 }
-REQUIRED_OBS = ["relevance_checked", "learn_conservation_checked", "learn_best_model_checked", "learn_swaps_executed", "learn_best_not_last",
+REQUIRED_OBS = ["predict_after_learn_checked", "relevance_checked", "learn_conservation_checked", "learn_best_model_checked", "learn_swaps_executed", "learn_best_not_last",
                 "prune_refit_checked", "prune_discarded", "first_in_order_conqueror"]
 MIN_NONTRIVIAL = 100
 NIL = -1
@@ -217,6 +217,22 @@ def _learn(case, res):
                     f"validation accuracies per iteration {[round(a, 4) for a in accs]} (best {best:.4f} at iteration(s) {[t for t, a in enumerate(accs) if a == best]}); "
                     f"the classifier left in the object equals iteration {which}'s" + ("" if which is not None else " (none of the observed iterations)"))
         return res
+    # the object must also BEHAVE as that classifier: predictions after learn are judged by the exhaustive scan over its own forest
+    Qv = np.array(case["V"], dtype=float)
+    pc = safe_call(m.predict, Qv.copy())
+    if not pc.ok:
+        res.violate("best-model", f"C17/learn/predict-after-learn-raises/{type(pc.exc).__name__}", f"predict on the object left by learn raised at {pc.where}")
+        return res
+    nodes = m.subgraph.nodes
+    fn = m.distance_fn
+    R = np.array([[float(fn(np.array(nd.features, dtype=float), Qv[x].copy())) for x in range(len(Qv))] for nd in nodes])
+    adm = admissible(m, R)
+    res.see("predict_after_learn_checked")
+    for x, a in enumerate(adm):
+        if a is not None and int(pc.value[x]) not in a[0]:
+            res.violate("best-model", "C17/learn/object-does-not-behave-as-kept-classifier",
+                        f"after learn, validation row {x} is predicted {int(pc.value[x])} but the exhaustive scan over the kept forest admits only {sorted(a[0])}")
+            return res
     if accs[-1] != best:
         res.see("learn_best_not_last")
     res.nontrivial = swapped and len(iters) >= 2
